@@ -38,6 +38,10 @@ type Disk struct {
 	// OnWrite, if set, is called (with the lock held) after every applied entry with the
 	// new log length; used for monitors. Must not call back into the disk.
 	OnWrite func(n int)
+	// CrashMatch, when set, places a crash at the first write touching a key it accepts:
+	// before the write (lost) when CrashMatchBefore is set, right after it (durable) otherwise.
+	CrashMatch       func(key string) bool
+	CrashMatchBefore bool
 	// Swallowed counts writes dropped because the disk was frozen.
 	Swallowed int
 	// FailNext makes the next n write calls return an error without applying (error injection).
@@ -65,6 +69,21 @@ func (d *Disk) apply(e Entry) error {
 		d.Swallowed++
 		return nil
 	}
+	matched := false
+	if d.CrashMatch != nil {
+		for _, o := range e.ops {
+			if d.CrashMatch(o.k) {
+				matched = true
+				break
+			}
+		}
+		if matched && d.CrashMatchBefore {
+			// the process dies before this write: it is lost
+			d.frozen = true
+			d.Swallowed++
+			return nil
+		}
+	}
 	for _, o := range e.ops {
 		if o.del {
 			delete(d.cur, o.k)
@@ -76,6 +95,10 @@ func (d *Disk) apply(e Entry) error {
 		d.log = append(d.log, e)
 	}
 	if d.crashAt >= 0 && d.keepLog && len(d.log) >= d.crashAt {
+		d.frozen = true
+	}
+	if matched {
+		// the process dies right after this write became durable
 		d.frozen = true
 	}
 	if d.OnWrite != nil {
